@@ -156,11 +156,11 @@ func (w *hWorld) resolve(r *Run, oc *oidcv1.OIDCConfig, ans discAnswer, apply bo
 }
 
 type discCase struct {
-	Logout   string     `json:"logout"` // none | with-redirect | without-redirect
-	Jwks     string     `json:"jwks"`   // static | fetcher | unset
+	Logout   string       `json:"logout"`  // none | with-redirect | without-redirect
+	Jwks     string       `json:"jwks"`    // static | fetcher | unset
 	Answers  []discAnswer `json:"answers"` // the endpoint's answer at each successive handler construction
-	NoURI    bool       `json:"no_configuration_uri,omitempty"`
-	Outcomes []string   `json:"outcomes,omitempty"`
+	NoURI    bool         `json:"no_configuration_uri,omitempty"`
+	Outcomes []string     `json:"outcomes,omitempty"`
 }
 
 // discSweep: configurations x answer sequences (a failure followed by a success exercises "a failed fetch is not
